@@ -847,7 +847,10 @@ fn c03_limit_coils_1969_mbap() {
     kani::cover!(true, "reached");
 }
 
-//@ props: C03
+// ATTEMPTED, NEVER COMPLETED (unregistered): accepting the largest legal write (1968 coils) means unrolling 246 x 8
+// iterations of `chunks(8)`/`enumerate` over heap data: > 50 min twice, no result. The REJECTION of 1969 coils is
+// decided (c03_limit_coils_1969_mbap, instant since fix F3a); the register limit 123/124 is decided on both framings.
+//@ props: ZZ
 //@ tier: thorough
 //@ timeout: 7200
 //@ fns: common::frame::FrameWriter::format_request, common::serialize::<WriteMultiple<bool> as Serialize>::serialize
